@@ -302,12 +302,19 @@ def check_case(case, ev):
         # caller-supplied upstream names are declared outputs and may be returned
         allowed_extra = {k for k in vals if k in outs}
         sel = set(eff_sel) if eff_sel is not None else None
+        # A consumer with a signature default on a fed edge starts early and re-runs when the value arrives; a waiter
+        # downstream of it may already have consumed its one signal, so it keeps the early value (documented freshness
+        # rule of wait_for).  Values are C01's/C17's subject: here only the key set is judged for such programs.
+        stale_possible = any(n.get("wait_for") for n in topo if n["name"] in executed_ref) and any(
+            p in n.get("defaults", {}) and p in prod and prod[p]["name"] in executed_ref for n in topo if n["name"] in executed_ref for p in n["params"])
+        if stale_possible:
+            labels.add("values_not_compared:default_edge_with_waiter")
         for k, v in expect.items():
             if sel is not None and k not in sel:
                 continue
             if k not in out2.values:
                 raise Violation("c16.selected_value_missing", f"[{tag}] {k!r} was produced by an executed node and is selected but is absent from {sorted(out2.values)}")
-            if out2.values[k] != v:
+            if out2.values[k] != v and not stale_possible:
                 raise Violation("c16.value_wrong", f"[{tag}] {k}={J(out2.values[k])} expected {J(v)}")
         for k in out2.values:
             if k not in expect and k not in allowed_extra:
@@ -315,7 +322,7 @@ def check_case(case, ev):
         for n in topo:
             if n["name"] in executed_ref and entry and n["name"] in entry:
                 calls = ctx2.calls(n["name"])
-                if not calls or calls[-1] != args[n["name"]]:
+                if not calls or (calls[-1] != args[n["name"]] and not stale_possible):
                     raise Violation("c16.entry_args", f"[{tag}] entry node {n['name']} ran with {J(calls[-1:] )}, expected the caller's values {J(args[n['name']])}")
         # on_missing policy
         if sel is not None:
